@@ -56,7 +56,10 @@ TESTED_NOT_PROVED = [
     "string level: RDKit parsing of the unmapped side gives the implicit-hydrogen form of the mapped side (monitored: isomorphism bit in the oracle), "
     "serialisation of the glued ITS (_to_smarts) and Standardize.fit - the property oracle runs the whole chain",
     "the identity match survives the pruning by rule automorphisms up to an equivalent match (oracle: a regenerating ITS is in its_list)",
-    "default (explicit-hydrogen) mode: _strip_explicit_h / _explicit_h round trip is covered by the correspondence, theorem only for the implicit mode",
+    "default (explicit-hydrogen) mode: that the rule prepared by _strip_explicit_h describes the pair of implicit-hydrogen sides is VALIDATED per case "
+    "(boolean describesb, computed by the model and independently by the harness; C04_identity_glue_any_rule then gives the regeneration before "
+    "_explicit_h), not proved from the precondition; fails by construction for reactions with H2 (its hydrogens are folded on one side only): those "
+    "and the _explicit_h stage are covered by the correspondence and the oracle only",
     "invariance under atom-map renumbering and SMILES rewriting: every case is run on rewritten inputs (C05 states the equivariance)",
 ]
 
@@ -280,7 +283,60 @@ def impl(case):
     obs.append(anyreg if o["remaps"] is None else 0)
     obs.append(anyreg if o["remaps"] is None else 0)      # its_list on [identity] (model)
     obs.append(1)              # wf_rcb rule.rc && wf_hostb substrate (recomputed by the model)
+    # translation validation of the rule preparation, recomputed independently: premises / conclusion of C04_identity_glue_any_rule
+    from synkit.Graph.Hyrogen._misc import h_to_implicit
+    other = h_to_implicit(o["B"])
+    obs.append(_pair_wf_py(o["host"], other))
+    obs.append(_describes_py(o["host"], other, rule.rc.raw))
+    obs.append([] if o["remaps"] is not None else
+               [[] if g is None else (1 if _exact_py(g, o["host"], other) else 0) for g in o["glued"]])
     return obs
+
+
+def _pair_wf_py(A, B):
+    if set(A.nodes) != set(B.nodes):
+        return 0
+    for g in (A, B):
+        for u, v, d in g.edges(data=True):
+            if u == v or not d.get("order", 0) > 0:
+                return 0
+    return 1 if all(A.nodes[n].get("element") == B.nodes[n].get("element") for n in A.nodes) else 0
+
+
+def _describes_py(A, B, rc):
+    """plain-networkx reading of 'the rule describes the pair (A, B)' (model: describesb)"""
+    def order(g, u, v):
+        return K.half(g[u][v]["order"]) if g.has_edge(u, v) else 0
+
+    def t3(d):
+        return (d.get("element"), int(d.get("hcount", 0)), int(d.get("charge", 0)))
+    for u, v, d in rc.edges(data=True):
+        if u == v or d["order"][0] < 0 or d["order"][1] < 0:
+            return 0
+    for n, d in rc.nodes(data=True):
+        if n not in A or n not in B:
+            return 0
+        tG, tH = d["typesGH"]
+        x, y = t3(A.nodes[n]), t3(B.nodes[n])
+        if not (tG[0] == x[0] and tH[0] == y[0] and tG[3] == x[2] and tH[3] == y[2] and tG[2] <= x[1] and tG[2] - tH[2] == x[1] - y[1]):
+            return 0
+    for u, v, d in rc.edges(data=True):
+        if K.half(d["order"][0]) != order(A, u, v) or K.half(d["order"][1]) != order(B, u, v):
+            return 0
+    for X, Y in ((A, B), (B, A)):
+        for u, v, d in X.edges(data=True):
+            if K.half(d["order"]) != order(Y, u, v) and not rc.has_edge(u, v):
+                return 0
+    for n, d in A.nodes(data=True):
+        if n in B and t3(d) != t3(B.nodes[n]) and n not in rc:
+            return 0
+    return 1
+
+
+def _exact_py(T, A, B):
+    from synkit.Graph.ITS.its_decompose import its_decompose
+    l, r = its_decompose(T)
+    return G4.side_sig(l) == G4.side_sig(A) and G4.side_sig(r) == G4.side_sig(B)
 
 
 # ------------------------------------------------------------------ model encoder
@@ -449,7 +505,8 @@ def nontrivial(case, obs):
 
 def distribution(cases, obss):
     d = dict(mode={}, template={}, direction={}, strategy={}, variant={}, skipped=0, identity_in_raw=0, regenerated_graph_level=0,
-             explicit_rematch_path=0, outside_centre_change=0, corpus={}, distinct_reactions=0, comp_guard_region=0)
+             explicit_rematch_path=0, outside_centre_change=0, corpus={}, distinct_reactions=0, comp_guard_region=0,
+             rule_describes_pair={"E": 0, "I": 0}, glued_is_pair_before_explicit_h={"E": 0, "I": 0})
     rx = set()
     for c, o in zip(cases, obss):
         if not isinstance(o, list) or not o or o[0] in ("SKIP", "EXC"):
@@ -461,6 +518,9 @@ def distribution(cases, obss):
             d[k][v] = d[k].get(v, 0) + 1
         rx.add(c.get("cid"))
         d["comp_guard_region"] += 1 if pre.get("guard") else 0
+        if len(o) >= 15 and pre.get("mode") in ("E", "I"):
+            d["rule_describes_pair"][pre["mode"]] += 1 if o[13] else 0
+            d["glued_is_pair_before_explicit_h"][pre["mode"]] += 1 if (o[14] and o[14][0] == 1) else 0
         d["identity_in_raw"] += 1 if o[5] else 0
         d["regenerated_graph_level"] += 1 if o[8] else 0
         d["explicit_rematch_path"] += 1 if o[2] else 0
@@ -560,12 +620,14 @@ LEVEL_TEXT = ("Machine-checked proof (Coq) over an executable model of the round
               "SynRule preparation, _invert_template) -> application to the reaction's own reactants / products (pattern preparation, "
               "SynReactor._glue_graph along the identity match): for every balanced pair of graphs written with implicit hydrogens the identity "
               "is a valid match of the prepared pattern and the glued ITS decomposes to the reaction again, for the full ITS as template always "
-              "and for the centre exactly when no atom outside the centre changes charge or hydrogen count, forwards and backwards. The model is "
+              "and for the centre exactly when no atom outside the centre changes charge or hydrogen count, forwards and backwards; and for any "
+              "rule in either hydrogen mode that passes the boolean check 'describes the pair' (evaluated on every case). The model is "
               "tied to the Python code by comparing every intermediate graph (before RDKit serialisation) on corpus reactions, their atom-map "
               "renumberings and SMILES rewritings on every run; the property itself is run end to end by an independent oracle.")
 LEVEL_NOTE = ("Trusted: Coq kernel + vm_compute; the hand-written models and harness encoders; RDKit parsing and VF2 matching are oracle inputs "
-              "(identity-in-raw-matches is compared with the model's match validity). Tested, not proved: the default explicit-hydrogen mode "
-              "(_strip_explicit_h / _explicit_h round trip), survival of the identity match under automorphism pruning, RDKit serialisation and "
+              "(identity-in-raw-matches is compared with the model's match validity). Tested, not proved: in the default explicit-hydrogen mode the "
+              "premise that the stripped rule describes the pair is validated per case, not derived from the precondition, and the _explicit_h stage "
+              "(re-materialised hydrogens) is compared only; survival of the identity match under automorphism pruning, RDKit serialisation and "
               "Standardize.fit, invariance under renumbering / rewriting (run on rewritten inputs). Known: centre templates cannot regenerate "
               "reactions with a charge / hydrogen change away from any changed bond (56 ecoli reactions); explicit-hydrogen re-matching fails for "
               "a backwards template that keeps H2 explicit (usp#21).")
